@@ -88,7 +88,9 @@ struct Exec {
 	Effect      eff;
 
 	Exec() {
-		T.trivial       = !ET::tracked;
+		T.trivial       = ET::trivial;
+		T.serialization = Cfg::serialization;
+		T.tracked       = ET::tracked;
 		T.pocca         = Cfg::pocca;
 		T.pocma         = Cfg::pocma;
 		T.pocs          = Cfg::pocs;
@@ -428,6 +430,13 @@ struct Exec {
 		if(threw && !fired) fail("WRONG-EXCEPTION", "the operation threw although no fault was injected: " + threw_what_);
 		if(W.violated()) { finish_violation(); return; }
 
+		// a stream fault that fired without an exception (e.g. a number cut short that still parses): no equality is demanded
+		if(fired && !threw && (op.kind == O_LOAD || op.kind == O_SAVE)) threw = true;
+		if(op.kind == O_SAVE && eff.file_id >= 0) {
+			if(threw) M.files[eff.file_id].valid = false;
+			else M.files[eff.file_id] = eff.file_next;
+		}
+		if(op.kind == O_LOAD && fired) probe(P_FAULT_DURING_LOAD);
 		// ---- model transition
 		if(!threw) {
 			for(int k = 0; k < eff.nt; ++k) {
@@ -464,7 +473,7 @@ struct Exec {
 						read_array<DD>(a, 1, now, ok);
 						if(now.size() != old.v.size()) { fail("I4-extents", "a failed write through a view changed the size of its root"); return; }
 						for(std::size_t j = 0; j < now.size(); ++j) {
-							if(now[j] != old.v[j] && now[j] != eff.next[k].v[j] && !(eff.moves_elements && now[j] == MOVED_FROM && j < eff.touched[k].size() && eff.touched[k][j])) {
+							if(now[j] != old.v[j] && now[j] != eff.next[k].v[j] && !(eff.moves_elements && now[j] == MOVED_FROM && j < eff.touched[k].size() && eff.touched[k][j]) && !(op.kind == O_LOAD && j < eff.touched[k].size() && eff.touched[k][j])) {
 								fail("I4-value", "after a failed write through a view element " + std::to_string(j) + " of the root is " + std::to_string(now[j]) + ", neither its old value " + std::to_string(old.v[j]) + " nor its new value " + std::to_string(eff.next[k].v[j]));
 								return;
 							}
@@ -501,6 +510,10 @@ struct Exec {
 	}
 
 	int last_fired_kind_ = -1, last_fired_a_ = -1;
+	std::vector<char> file_bytes_[NFILE];
+	int               chunk_r_ = 0;
+	bool ser_save(Op const& op);  // defined in ser_ops.hpp (serialization builds only)
+	bool ser_load(Op const& op);
 	std::string threw_what_;
 	bool run_real_guarded(Op const& op, bool& threw, bool& wrong) {
 		bool done = false;
@@ -515,8 +528,10 @@ struct Exec {
 			threw = true;
 			done  = true;
 		} catch(std::exception const& ex) {
-			threw = wrong = true;
+			threw = true;
 			done  = true;
+			// an archive exception is the legitimate outcome of an injected stream fault
+			wrong = !(W.fired && (W.armed_kind == F_EOF || W.armed_kind == F_WERR));
 			threw_what_ = ex.what();
 		} catch(...) {
 			threw = wrong = true;
@@ -531,6 +546,8 @@ struct Exec {
 	RunResult run(Plan const& plan) {
 		W.reset(plan.knobs.reuse);
 		M.clear();
+		chunk_r_ = plan.knobs.chunk_r;
+		for(auto& fb : file_bytes_) fb.clear();
 		std::memset(tainted, 0, sizeof tainted);
 		run_faulted    = false;
 		harness_elems_ = 0;
